@@ -214,6 +214,11 @@ func cpBuildTree(fam string, seed int64) cpTreeSpec {
 		sp.collide = true
 	case "fx-none": // fixed: the stripped name is the reserved word of the null output
 		addFile("", "none.knz")
+	case "fx-none2": // fixed: reserved words as stripped names at the top of a tree with several files (multi-file branch)
+		addFile("", "none.knz")
+		addFile("", "STDOUT.knz")
+		addFile("", "a.knz")
+		addFile("sub", "none.knz")
 	case "one", "two":
 		// a directory whose recursive listing is exactly ONE regular file (the tool has a separate
 		// `nbFiles == 1` branch), 0, 1 or 2 sub-directories deep, possibly empty; "two": the same
@@ -1314,6 +1319,13 @@ func cpGen(r *rand.Rand, tier string, n int, emit func(op string, tags ...string
 		}
 	}
 	emit("run kind=d fam=fx-none seed=1 lay=fileincwd spell=plain ospell=plain f=0 rm=1 nl=0 nd=0 j=1", "family:decompress-names")
+	// reserved words in the multi-file branch: in place, with the tree given as `.` / `./` (the walk then reports the bare
+	// names `none.knz`, `STDOUT.knz`), as a plain and as an unclean name
+	for _, sp := range []string{"cwd", "cwdslash", "plain", "dotslash"} {
+		for _, rm := range []int{0, 1} {
+			emit(fmt.Sprintf("run kind=d fam=fx-none2 seed=1 lay=inplace spell=%s ospell=plain f=0 rm=%d nl=0 nd=0 j=%d", sp, rm, 1+3*rm), "family:reserved-names-multi")
+		}
+	}
 	// the same hazards through the NON-RECURSIVE form with unclean spellings of the directory (the file list then keeps
 	// the user's spelling, so every comparison of input and output names has to clean both sides)
 	for _, sp := range []string{"nonrec", "nonrecdotslash", "nonrecdbl", "nonrecdotdot"} {
